@@ -81,7 +81,9 @@ UserStop(x0) ==
                           !.unwinding = IF x.att = "starting" THEN TRUE ELSE @,
                           !.pending = FALSE]
            ELSE x
-  IN IF LockFree(y) THEN {StopFinish(y)} ELSE {[y EXCEPT !.stopwait = TRUE]}
+  \* a connect task that had just been handed the lock (woken, not yet run) still occupies the head of the
+  \* lock's queue after it is cancelled: stop() then gets the lock in a later callback
+  IN IF LockFree(y) /\ ~x.pending THEN {StopFinish(y)} ELSE {[y EXCEPT !.stopwait = TRUE]}
 
 \* an mDNS record is delivered to the listener
 Mdns(x0, match) ==
